@@ -173,7 +173,9 @@ TEXT = {
           "its root list denotes exactly the real roots of the specialised polynomial and a real v lies in the returned set iff the "
           "(possibly negated) condition holds for the specialised polynomial at v (uses C11_rootsUnder_exact, separate_spec, "
           "samples_spec, sign_at_rat = C10_sign_exact at rational points, sign_const = intermediate value theorem, C12_sweep); "
-          "C12_feasible_exact_zero covers specialisations that vanish identically (identicallyZero_sound).",
+          "C12_feasible_exact_zero covers specialisations that vanish identically (identicallyZero_sound). Second tie: the negation and "
+          "consistency tables of the model are proved equal to definitions regenerated from src/utils/sign_condition.c by a clang-AST "
+          "translator on every run (Props/GenTables: negate_eq, consistent_eq, consistentInterval_eq).",
   "design_ref": "5.12",
   "note": "the C++ helpers are reached through a C++ companion of the harness (h_eval_shim.cpp): poly::infeasible_regions must equal the one-pass complement of the feasible set returned for the same constraint (C12_complement_exact: that complement is exact for every sorted list of disjoint non-empty intervals), poly::isolate_real_roots goes through the same root validation as the C entry point",
   "technique": "Lean 4 proved root-constraint table and sign procedure (validator) + per-output validation of the C results",
